@@ -276,7 +276,10 @@ def check(run):
         "custom resources: the theorems cover validation, arbitration and the generator's dereference sites of the modelled optional fields; the rest of "
         "internal/configs/virtualserver.go / transportserver.go and the templates is exercised (every shape, real templates) but not modelled",
         "App Protect / DoS resources (unstructured), IngressLink, ConfigMap parsing and the status updater are not driven",
-        "the prior states are the four of Model.all_ctx (empty; a VirtualServer owning the host; master+minion on the host; a lone minion), all older than the object under test",
+        "the prior states are those of Model.all_ctx (Ingress: empty; a VirtualServer owning the host; master+minion on the host; a lone minion), "
+        "Model.all_vctx (VirtualServer: empty; an older VirtualServer on the host; a GlobalConfiguration; the referenced VirtualServerRoute stored with 0, 1 "
+        "agreeing, 1 other, 2 subroutes), Model.all_rctx (VirtualServerRoute: orphan; a VirtualServer referencing it from a prefix, exact or regex path) "
+        "and Model.all_tctx; the objects of the prior states are older than the object under test",
     ]
 
 
